@@ -7,6 +7,7 @@ import (
 	"fmt"
 	"testing"
 
+	"github.com/gebn/bmc/pkg/dcmi"
 	"github.com/gebn/bmc/pkg/ipmi"
 	"github.com/google/gopacket"
 	"pgregory.net/rapid"
@@ -301,9 +302,69 @@ func TestThroughAPI(t *testing.T) {
 	})
 }
 
+// TestSensorInfoThroughAPI reads generated per-entity record-ID lists through
+// dcmi.GetSensorInfo (one command value serves every entity and page, so response
+// layers see lists of decreasing and increasing length) and requires the exact lists.
+func TestSensorInfoThroughAPI(t *testing.T) {
+	ev.Check(t, "TestSensorInfoThroughAPI", ev.PickN(1500, 80000), func(t *rapid.T) {
+		creds := hx.Creds{User: "admin", Password: []byte("secret"), Priv: 4, Suite: rapid.SampledFrom(hx.Suites9()).Draw(t, "suite"), Seed: rapid.Uint64().Draw(t, "seed")}
+		w := hx.NewWorldFor(creds, true)
+		sess, err := w.T.NewV2Session(context.Background(), creds.Opts())
+		if err != nil {
+			t.Fatalf("session: %v", err)
+		}
+		b := w.BMC
+		b.Data.DCMIPage = rapid.IntRange(1, 8).Draw(t, "page")
+		useStd := rapid.Bool().Draw(t, "standardEntities")
+		ents := []byte{0x40, 0x41, 0x42}
+		if useStd {
+			ents = []byte{0x37, 0x03, 0x07}
+		}
+		var want [3][]uint16
+		shrink, total := false, 0
+		for e := range ents {
+			n := rapid.IntRange(0, 20).Draw(t, "instances")
+			for i := 0; i < n; i++ {
+				want[e] = append(want[e], rapid.Uint16Range(0, 0xfffe).Draw(t, "recordID"))
+			}
+			b.Data.DCMIIDs[ents[e]] = want[e]
+			total += n
+			if e > 0 && n%b.Data.DCMIPage < len(want[e-1])%b.Data.DCMIPage || n > b.Data.DCMIPage && n%b.Data.DCMIPage != 0 {
+				shrink = true
+			}
+		}
+		if useStd && total == 0 {
+			useStd = false // the library falls back to the (empty) DCMI entity IDs
+		}
+		ctx, cancel := w.Ctx(200)
+		info, err := dcmi.GetSensorInfo(ctx, sess)
+		cancel()
+		ev.Eval()
+		if err != nil {
+			t.Fatalf("GetSensorInfo: %v; BMC problems %v", err, w.BMC.AllProblems())
+		}
+		for e, got := range [][]ipmi.RecordID{info.Inlet, info.CPU, info.Baseboard} {
+			if len(got) != len(want[e]) {
+				t.Fatalf("entity %#x: got %v, the BMC holds %v (page size %d)", ents[e], got, want[e], b.Data.DCMIPage)
+			}
+			for i := range got {
+				if uint16(got[i]) != want[e][i] {
+					t.Fatalf("entity %#x: got %v, the BMC holds %v (page size %d)", ents[e], got, want[e], b.Data.DCMIPage)
+				}
+			}
+		}
+		if shrink {
+			ev.Label("api:sensor-info:shorter-page-after-longer")
+		}
+		if total > 0 {
+			ev.NonTrivial(fmt.Sprintf("sensorinfo|%v|%d|%v", want, b.Data.DCMIPage, useStd))
+		}
+	})
+}
+
 func TestCoverage(t *testing.T) {
 	ev.RequireLabels(t, 1, "reject:checksum", "reject:covered-byte", "reject:length-field", "decode:GetSessionInfoRsp/3", "decode:GetSessionInfoRsp/6", "decode:GetSessionInfoRsp/18",
 		"decode:FullSensorRecord/enc0", "decode:FullSensorRecord/enc1", "decode:FullSensorRecord/enc2", "decode:FullSensorRecord/enc3", "decode:RAKPMessage2/status0=true",
-		"decode:DCMICaps/param2/v1.0", "decode:DCMICaps/param2/v1.5", "api-reject:mode0", "api-reject:mode1", "api-reject:mode2", "sweep:checksums")
+		"decode:DCMICaps/param2/v1.0", "decode:DCMICaps/param2/v1.5", "api:sensor-info:shorter-page-after-longer", "api-reject:mode0", "api-reject:mode1", "api-reject:mode2", "sweep:checksums")
 	_ = context.Background
 }
